@@ -5,6 +5,8 @@ import (
 	"errors"
 )
 
+// C20 — MemoryEventStore: one operation from an arbitrary store satisfying the representation
+// invariant (ADT step), plus short histories from the empty store.
 
 // zzList is the ghost view of one stream: what was appended (only the retained
 // suffix is materialised; `first` items before it are "already evicted").
@@ -15,6 +17,8 @@ type zzList struct {
 	items        [][]byte // retained items, in order
 }
 
+var zzC20Names = [][2]string{{"S0", "a"}, {"S0", "b"}, {"S1", "a"}}
+
 // zzStore builds an arbitrary store satisfying the representation invariant, using
 // the real init/appendData for the shape and symbolic values for sizes.
 func zzStore(maxLists, maxItems int) (*MemoryEventStore, []*zzList) {
@@ -24,17 +28,16 @@ func zzStore(maxLists, maxItems int) (*MemoryEventStore, []*zzList) {
 	nl := vInt("nl")
 	vAssume(nl >= 1 && nl <= maxLists)
 	var ls []*zzList
-	names := []string{"a", "b", "c"}
 	for i := 0; i < nl; i++ {
-		l := &zzList{sess: "S", stream: names[i]}
+		l := &zzList{sess: zzC20Names[i][0], stream: zzC20Names[i][1]}
 		l.dl = s.init(l.sess, l.stream)
 		l.first = vInt("first")
-		vAssume(l.first >= 0 && l.first <= 1000)
+		vAssume(l.first >= 0 && l.first <= 1<<40)
 		l.dl.first = l.first
 		n := vInt("n")
 		vAssume(n >= 0 && n <= maxItems)
 		for j := 0; j < n; j++ {
-			d := vBytes("d", 5)
+			d := vBytes("d", 1<<30)
 			l.dl.appendData(d)
 			s.nBytes += len(d)
 			l.items = append(l.items, d)
@@ -44,6 +47,7 @@ func zzStore(maxLists, maxItems int) (*MemoryEventStore, []*zzList) {
 	return s, ls
 }
 
+// zzRepInv: size = Σ len(item); nBytes = Σ size; data is exactly the retained ghost items; first agrees.
 func zzRepInv(s *MemoryEventStore, ls []*zzList) bool {
 	total := 0
 	for _, l := range ls {
@@ -65,57 +69,268 @@ func zzRepInv(s *MemoryEventStore, ls []*zzList) bool {
 	return total == s.nBytes
 }
 
-func zzC20After() {
-	s, ls := zzStore(2, 2)
-	l := ls[0]
-	idx := vInt("idx")
-	vAssume(idx >= -1 && idx <= l.first+len(l.items)+1)
+func zzCollect(s *MemoryEventStore, sess, stream string, idx int) ([][]byte, error) {
 	var got [][]byte
 	var gerr error
-	for d, err := range s.After(context.Background(), l.sess, l.stream, idx) {
+	n := 0
+	for d, err := range s.After(context.Background(), sess, stream, idx) {
+		n++
 		if err != nil {
 			gerr = err
+			vAssert(d == nil, "C20.after.err-without-data")
 			break
 		}
 		got = append(got, d)
 	}
+	return got, gerr
+}
+
+// zzAfterSpec checks After(idx) against the ghost list l.
+func zzAfterSpec(l *zzList, idx int, got [][]byte, gerr error) {
 	if idx+1 < l.first {
 		vAssert(gerr != nil && errors.Is(gerr, ErrEventsPurged) && len(got) == 0, "C20.after.purged")
 		vReach("purged")
-	} else {
-		vAssert(gerr == nil, "C20.after.noerr")
-		start := idx + 1 - l.first
-		want := 0
-		if start < len(l.items) {
-			want = len(l.items) - start
-		}
-		vAssert(len(got) == want, "C20.after.count")
-		for k := 0; k < len(got); k++ {
-			vAssert(vSame(got[k], l.items[start+k]), "C20.after.item")
-		}
-		vReach("served")
+		return
 	}
-	vAssert(zzRepInv(s, ls), "C20.after.inv")
+	vAssert(gerr == nil, "C20.after.noerr")
+	start := idx + 1 - l.first
+	want := 0
+	if start < len(l.items) {
+		want = len(l.items) - start
+	}
+	vAssert(len(got) == want, "C20.after.count")
+	for k := 0; k < len(got); k++ {
+		vAssert(vSame(got[k], l.items[start+k]), "C20.after.item")
+	}
+	vReach("served")
 }
 
-func zzC20Append() {
-	s, ls := zzStore(2, 2)
-	l := ls[0]
-	d := vBytes("new", 9)
-	before := s.nBytes
-	_ = before
-	if err := s.Append(context.Background(), l.sess, l.stream, d); err != nil {
-		vAssert(false, "C20.append.err")
+func zzGuardStore(s *MemoryEventStore, ls []*zzList) {
+	objs := []any{s.store, &s.nBytes, &s.maxBytes}
+	for _, l := range ls {
+		objs = append(objs, l.dl, l.dl.data)
 	}
-	// ghost update: the new item is retained; some prefix of every list may have been evicted.
+	for _, m := range s.store {
+		objs = append(objs, m)
+	}
+	vGuard(&s.mu, objs...)
+}
+
+func zzC20After() {
+	s, ls := zzStore(vParam("lists"), vParam("items"))
+	vAssume(zzRepInv(s, ls))
+	zzGuardStore(s, ls)
+	l := ls[vChoice("which", len(ls))]
+	idx := vInt("idx")
+	vAssume(idx >= -1 && idx < 1<<62)
+	got, gerr := zzCollect(s, l.sess, l.stream, idx)
+	zzAfterSpec(l, idx, got, gerr)
+	vAssert(zzRepInv(s, ls), "C20.after.inv")
+	vReach("end")
+}
+
+// After for a session or stream the store has never seen: an error, never data.
+func zzC20AfterUnknown() {
+	s, ls := zzStore(vParam("lists"), vParam("items"))
+	idx := vInt("idx")
+	vAssume(idx >= -1 && idx < 1<<62)
+	var got [][]byte
+	var gerr error
+	if vBool("unknownSession") {
+		got, gerr = zzCollect(s, "nosuch", "a", idx)
+	} else {
+		got, gerr = zzCollect(s, ls[0].sess, "nosuch", idx)
+	}
+	vAssert(gerr != nil && len(got) == 0, "C20.after.unknown")
+	vAssert(zzRepInv(s, ls), "C20.after.inv")
+	vReach("end")
+}
+
+func zzGhostEvict(ls []*zzList, label string) {
 	for _, g := range ls {
 		ev := g.dl.first - g.first
-		vAssert(ev >= 0 && ev <= len(g.items), "C20.append.evict-front-only")
+		vAssert(ev >= 0 && ev <= len(g.items), label)
 		g.items = g.items[ev:]
 		g.first = g.dl.first
 	}
+}
+
+func zzC20Append() {
+	s, ls := zzStore(vParam("lists"), vParam("items"))
+	vAssume(zzRepInv(s, ls))
+	zzGuardStore(s, ls)
+	l := ls[vChoice("which", len(ls))]
+	d := vBytes("new", 1<<30)
+	if err := s.Append(context.Background(), l.sess, l.stream, d); err != nil {
+		vAssert(false, "C20.append.err")
+	}
+	// ghost update: some prefix of every list may have been evicted; the new item is retained.
+	zzGhostEvict(ls, "C20.append.evict-front-only")
 	l.items = append(l.items, d)
 	vAssert(zzRepInv(s, ls), "C20.append.inv")
-	vAssert(s.nBytes <= s.maxBytes+len(d), "C20.append.bound")
-	vReach("appended")
+	vAssert(s.nBytes-len(d) <= s.maxBytes, "C20.append.bound")
+	// the item just appended is immediately replayable
+	got, gerr := zzCollect(s, l.sess, l.stream, l.first+len(l.items)-2)
+	vAssert(gerr == nil && len(got) == 1 && vSame(got[0], d), "C20.append.replayable")
+	vReach("end")
+}
+
+// Append to a stream that was never opened creates it (index 0).
+func zzC20AppendNew() {
+	s, ls := zzStore(vParam("lists"), vParam("items"))
+	vAssume(zzRepInv(s, ls))
+	d := vBytes("new", 1<<30)
+	if err := s.Append(context.Background(), "S9", "z", d); err != nil {
+		vAssert(false, "C20.append.err")
+	}
+	zzGhostEvict(ls, "C20.append.evict-front-only")
+	nl := &zzList{sess: "S9", stream: "z", dl: s.store["S9"]["z"], items: [][]byte{d}}
+	vAssert(nl.dl != nil, "C20.appendnew.created")
+	ls = append(ls, nl)
+	vAssert(zzRepInv(s, ls), "C20.append.inv")
+	vAssert(s.nBytes-len(d) <= s.maxBytes, "C20.append.bound")
+	vReach("end")
+}
+
+func zzC20SetMaxBytes() {
+	s, ls := zzStore(vParam("lists"), vParam("items"))
+	vAssume(zzRepInv(s, ls))
+	zzGuardStore(s, ls)
+	n := vInt("n")
+	vAssume(n >= 0)
+	s.SetMaxBytes(n)
+	zzGhostEvict(ls, "C20.setmax.evict-front-only")
+	vAssert(zzRepInv(s, ls), "C20.setmax.inv")
+	vAssert(s.nBytes <= s.maxBytes, "C20.setmax.bound")
+	if n == 0 {
+		vAssert(s.maxBytes == defaultMaxBytes, "C20.setmax.default")
+	} else {
+		vAssert(s.maxBytes == n, "C20.setmax.value")
+	}
+	vAssert(s.MaxBytes() == s.maxBytes, "C20.setmax.getter")
+	vReach("end")
+}
+
+func zzC20SessionClosed() {
+	s, ls := zzStore(vParam("lists"), vParam("items"))
+	vAssume(zzRepInv(s, ls))
+	zzGuardStore(s, ls)
+	var victim string
+	switch vChoice("victim", 3) {
+	case 0:
+		victim = "S0"
+	case 1:
+		victim = "S1"
+	default:
+		victim = "nosuch"
+	}
+	before := s.nBytes
+	freed := 0
+	var rest []*zzList
+	for _, l := range ls {
+		if l.sess == victim {
+			freed += l.dl.size
+		} else {
+			rest = append(rest, l)
+		}
+	}
+	if err := s.SessionClosed(context.Background(), victim); err != nil {
+		vAssert(false, "C20.closed.err")
+	}
+	vAssert(s.nBytes == before-freed, "C20.closed.bytes-released")
+	_, still := s.store[victim]
+	vAssert(!still, "C20.closed.forgotten")
+	vAssert(zzRepInv(s, rest), "C20.closed.inv-others")
+	for _, l := range rest {
+		vAssert(s.store[l.sess][l.stream] == l.dl, "C20.closed.others-untouched")
+	}
+	// a closed session no longer serves data
+	got, gerr := zzCollect(s, victim, "a", -1)
+	vAssert(gerr != nil && len(got) == 0, "C20.closed.no-replay")
+	vReach("end")
+}
+
+func zzC20Open() {
+	s, ls := zzStore(vParam("lists"), vParam("items"))
+	vAssume(zzRepInv(s, ls))
+	zzGuardStore(s, ls)
+	before := s.nBytes
+	var sess, stream string
+	switch vChoice("target", 3) {
+	case 0:
+		sess, stream = ls[0].sess, ls[0].stream // existing
+	case 1:
+		sess, stream = ls[0].sess, "fresh" // new stream of an existing session
+	default:
+		sess, stream = "S9", "a" // new session
+	}
+	if err := s.Open(context.Background(), sess, stream); err != nil {
+		vAssert(false, "C20.open.err")
+	}
+	vAssert(s.nBytes == before, "C20.open.bytes")
+	vAssert(zzRepInv(s, ls), "C20.open.inv")
+	for _, l := range ls {
+		vAssert(s.store[l.sess][l.stream] == l.dl, "C20.open.others-untouched")
+	}
+	dl := s.store[sess][stream]
+	vAssert(dl != nil, "C20.open.exists")
+	got, gerr := zzCollect(s, sess, stream, -1)
+	if sess == ls[0].sess && stream == ls[0].stream {
+		zzAfterSpec(ls[0], -1, got, gerr)
+	} else {
+		vAssert(gerr == nil && len(got) == 0 && dl.first == 0 && dl.size == 0, "C20.open.empty")
+	}
+	vReach("end")
+}
+
+// zzC20History: a short history from the empty store; the ghost history is the ground truth.
+// Cross-checks that the invariant used by the step harnesses is what real histories produce.
+func zzC20History() {
+	s := NewMemoryEventStore(nil)
+	s.maxBytes = vInt("maxBytes")
+	vAssume(s.maxBytes >= 1)
+	type hist struct {
+		all [][]byte
+	}
+	h := map[string]*hist{"a": {}, "b": {}}
+	steps := vParam("steps")
+	for i := 0; i < steps; i++ {
+		stream := "a"
+		if vBool("stream") {
+			stream = "b"
+		}
+		switch vChoice("op", 3) {
+		case 0:
+			d := vBytes("d", 1<<30)
+			s.Append(context.Background(), "S", stream, d)
+			h[stream].all = append(h[stream].all, d)
+			vAssert(s.nBytes-len(d) <= s.maxBytes, "C20.hist.bound")
+		case 1:
+			n := vInt("newmax")
+			vAssume(n >= 1)
+			s.SetMaxBytes(n)
+			vAssert(s.nBytes <= s.maxBytes, "C20.hist.bound-after-setmax")
+		case 2:
+			idx := vInt("idx")
+			vAssume(idx >= -1 && idx < len(h[stream].all))
+			if len(h[stream].all) == 0 {
+				continue
+			}
+			got, gerr := zzCollect(s, "S", stream, idx)
+			if gerr != nil {
+				vAssert(errors.Is(gerr, ErrEventsPurged) && len(got) == 0, "C20.hist.purged-or-all")
+				dl := s.store["S"][stream]
+				vAssert(idx+1 < dl.first, "C20.hist.purged-only-if-evicted")
+				vReach("hist-purged")
+			} else {
+				want := h[stream].all[idx+1:]
+				vAssert(len(got) == len(want), "C20.hist.count")
+				for k := range got {
+					vAssert(vSame(got[k], want[k]), "C20.hist.item")
+				}
+				vReach("hist-served")
+			}
+		}
+	}
+	vReach("end")
 }
